@@ -32,7 +32,7 @@ pub enum PolicyKind {
     AllContinue,
     /// what the HTML tree builder does for the raw-text family
     HtmlLike,
-    /// explicit map start-tag name → action
+    /// explicit map: "name" (start tag) or "/name" (end tag) → action
     Map(Vec<(String, Action)>),
 }
 
@@ -88,8 +88,10 @@ impl PolicyState {
                 }
             },
             PolicyKind::Map(m) => {
+                // keys: "name" for a start tag, "/name" for an end tag (a sink may switch the
+                // state in answer to any token)
                 if end {
-                    Action::Continue
+                    m.iter().find(|(n, _)| n.strip_prefix('/') == Some(name)).map(|(_, a)| *a).unwrap_or(Action::Continue)
                 } else {
                     m.iter().find(|(n, _)| n == name).map(|(_, a)| *a).unwrap_or(Action::Continue)
                 }
